@@ -9,6 +9,7 @@ CONSTANTS
   DSet = {}
   SliceSet = {}
   SortCols = {}
+  ESet = {}
   SeedSet = {0}
   DoEmit = FALSE
   PropOnly = TRUE
